@@ -75,6 +75,10 @@ pub struct Cfg {
     pub type_mappings: Vec<(String, String)>,
     pub param_case: Option<String>,
     pub field_case: Option<String>,
+    /// how the settings reach the generator: "" = the configuration value as built;
+    /// "tauri_conf" = written to and read back from the typegen entry of a tauri.conf.json;
+    /// "file" = written to and read back from a stand-alone configuration file
+    pub route: String,
 }
 
 impl Cfg {
@@ -170,7 +174,29 @@ pub fn generate(files: &[(String, String)], cfg: &Cfg) -> GenOut {
 }
 
 pub fn generate_at(proj: &Path, out: &Path, cfg: &Cfg) -> GenOut {
-    let config = make_config(proj, out, cfg);
+    let mut config = make_config(proj, out, cfg);
+    if !cfg.route.is_empty() {
+        // the settings take the route a user's settings take: a file the tool wrote and reads back
+        let holder = fresh_dir("cfgroute");
+        let loaded = guarded(|| -> Result<tauri_typegen::GenerateConfig, String> {
+            if cfg.route == "tauri_conf" {
+                let f = holder.join("tauri.conf.json");
+                std::fs::write(&f, "{\n  \"productName\": \"app\",\n  \"plugins\": {}\n}\n").map_err(|e| e.to_string())?;
+                config.save_to_tauri_config(&f).map_err(|e| e.to_string())?;
+                tauri_typegen::GenerateConfig::from_tauri_config(&f).map_err(|e| e.to_string())?.ok_or_else(|| "no typegen entry read back".to_string())
+            } else {
+                let f = holder.join("typegen.json");
+                config.save_to_file(&f).map_err(|e| e.to_string())?;
+                tauri_typegen::GenerateConfig::from_file(&f).map_err(|e| e.to_string())
+            }
+        });
+        let _ = std::fs::remove_dir_all(&holder);
+        match loaded {
+            Ok(Ok(c)) => config = c,
+            Ok(Err(e)) => return GenOut { result: Err(format!("configuration route {}: {}", cfg.route, e)), panic: None, files: BTreeMap::new() },
+            Err(p) => return GenOut { result: Err(format!("panic: {}", p)), panic: Some(p), files: BTreeMap::new() },
+        }
+    }
     let res = guarded(|| tauri_typegen::generate_from_config(&config).map_err(|e| e.to_string()));
     let files = read_dir_files(out);
     match res {
